@@ -119,7 +119,7 @@ def chunkParams (c : Crypto) (cfg : Config) (r : Req) (a : Accepted) : Params :=
     | none => []
   let date := a.params.timestamp.take 8
   let hasTrailer := sha == streamingUnsignedTrailer || sha == streamingPayloadTrailer || sha == streamingECDSATrailer
-  let name := lower (trimSpace (headerGet r (b! "x-amz-trailer")))
+  let name := declaredTrailer (headerGet r (b! "x-amz-trailer"))
   { c := c, cksum := if hasTrailer then trailerCksum name else none,
     signKey := signingKey c secret date cfg.region (b! "s3") (b! "aws4_request"),
     timestamp := a.params.timestamp, scope := a.scope, seed := a.params.signature,
@@ -140,7 +140,7 @@ trailer signatures are ignored; a declared checksum trailer is still validated. 
 def framingOnlyParams (c : Crypto) (r : Req) : Params :=
   let sha := headerGet r contentSHA256Header
   let hasTrailer := sha == streamingUnsignedTrailer || sha == streamingPayloadTrailer || sha == streamingECDSATrailer
-  let name := lower (trimSpace (headerGet r (b! "x-amz-trailer")))
+  let name := declaredTrailer (headerGet r (b! "x-amz-trailer"))
   { c := c, cksum := if hasTrailer then trailerCksum name else none, signKey := [], timestamp := [],
     scope := [], seed := [], hasTrailer := hasTrailer, trailerSigned := false, skipValidation := true,
     trailerName := name }
